@@ -22,6 +22,7 @@ def cases(tier):
     out = [("dual", r) for r in range(300 if tier == "quick" else 10000)]
     out += [("comp", r) for r in range(150 if tier == "quick" else 5000)]
     out += [("unital", r) for r in range(100 if tier == "quick" else 3000)]
+    out += [("rectdual", r) for r in range(150 if tier == "quick" else 5000)]
     return out
 
 
@@ -169,3 +170,37 @@ def _run_comp(ctx, spec, rng):
     res = ctx.call(complementary_channel, rect, expect=(ValueError,))
     if res is not FAILED:
         ctx.check("O4:complementary-rejects", isinstance(res, ValueError), sig=("non-square",), mech="complementary_channel:accepts-non-square", detail={"d": d})
+
+
+def _run_rectdual(ctx, spec, rng):
+    """Maps between rectangular operator spaces, Phi(X) = sum A X B^dagger with A: ai -> ao, B: bi -> bo, given by their (rectangular) Choi
+    matrix with dims [[ai, ao], [bi, bo]]; local dimensions 1..3 (a 1 next to a partner > 1 included)."""
+    from toqito.channel_ops import dual_channel
+
+    ai, ao, bi, bo = (int(v) for v in rng.integers(1, 4, size=4))
+    if spec[1] % 3 == 0:  # force a local dimension 1 whose partner on the other side is larger
+        which = int(rng.integers(0, 4))
+        ai, ao, bi, bo = [(1, ao, max(bi, 2), bo), (ai, 1, bi, max(bo, 2)), (max(ai, 2), ao, 1, bo), (ai, max(ao, 2), bi, 1)][which]
+    if ai * ao < 2 or bi * bo < 2:
+        return  # a Choi "matrix" with a single row or column is treated as a vector by the library (degenerate, not probed)
+    r = int(rng.integers(1, 4))
+    a_ops = [gen.rc(rng, ao, ai) for _ in range(r)]
+    b_ops = [gen.rc(rng, bo, bi) for _ in range(r)]
+    j = ref.choi_of(a_ops, b_ops, ai, bi)
+    x, y = gen.rc(rng, ai, bi), gen.rc(rng, ao, bo)
+    lhs = hs(y, ref.apply_kraus(x, a_ops, b_ops))
+    d = ctx.call(dual_channel, j.copy(), dims=[[ai, ao], [bi, bo]])
+    if d is FAILED:
+        return
+    d = np.asarray(d)
+    sig = ("rect-choi", (ai, ao) != (bi, bo), min(ai, ao, bi, bo) == 1)
+    det = {"dims": [[ai, ao], [bi, bo]], "r": r}
+    if d.shape != (ao * ai, bo * bi):
+        ctx.check("O1:adjoint-identity", False, sig=sig, nt=True, mech="dual_channel:rectangular-choi-shape", detail=dict(det, shape=list(d.shape)))
+        return
+    dual_y = np.einsum("ij,iajb->ab", y, d.reshape(ao, ai, bo, bi))
+    ctx.check("O1:adjoint-identity", None, dev=abs(lhs - hs(dual_y, x)) / (1 + abs(lhs)), tol=1e-9, sig=sig, nt=True, mech="dual_channel:adjoint-identity[rectangular-choi]", detail=det)
+    want = ref.choi_of([a.conj().T for a in a_ops], [b.conj().T for b in b_ops], ao, bo)
+    ctx.check("O1:dual-choi=choi-of-adjoint-kraus", None, dev=float(np.abs(d - want).max()) / (1 + float(np.abs(want).max())), tol=1e-9, sig=sig, nt=True,
+              mech="dual_channel:rectangular-choi-differs-from-adjoint-kraus", detail=det)
+    ctx.sample("O1:adjoint-identity", det)
